@@ -478,7 +478,7 @@ Example class_file_one_nonvacuous :
   match P None file_base_text, S None file_base_text with
   | POk b, BDone sb =>
       let ok (cls : spec_url -> list N -> bool) i h :=
-        cls sb i = true /\ known_c01 (Some b) i = 1
+        cls sb i = true /\ known_c01_v3 (Some b) i = 1
         /\ match P (Some b) i, S (Some sb) i with
            | POk u, BDone su => q_href u = h /\ api_of_model true u = Some (spec_api_list spec_host_serializer su)
            | _, _ => False end in
@@ -500,7 +500,7 @@ Example class_file_one_drive_nonvacuous :
   match P None bt, S None bt with
   | POk b, BDone sb =>
       let ok (cls : spec_url -> list N -> bool) i h :=
-        cls sb i = true /\ known_c01 (Some b) i = 1
+        cls sb i = true /\ known_c01_v3 (Some b) i = 1
         /\ match P (Some b) i, S (Some sb) i with
            | POk u, BDone su => q_href u = h /\ api_of_model true u = Some (spec_api_list spec_host_serializer su)
            | _, _ => False end in
@@ -522,7 +522,7 @@ Example class_file_one_exclusion_necessary :
   let i := [47;67;58;47;121] in
   match P None file_base_text, S None file_base_text with
   | POk b, BDone sb =>
-      in_class_file_rel_one sb i = false /\ known_c01 (Some b) i = 1
+      in_class_file_rel_one sb i = false /\ known_c01_v3 (Some b) i = 1
       /\ match P (Some b) i, S (Some sb) i with
          | POk u, BDone su => q_href u = [102;105;108;101;58;47;47;47;67;58;47;121] /\ get_href spec_host_serializer su = [102;105;108;101;58;47;47;104;47;67;58;47;121]
          | _, _ => False end
@@ -751,7 +751,7 @@ Example class_file_drive_nonvacuous :
   match P None bt, S None bt with
   | POk b, BDone sb =>
       let ok (cls : spec_url -> list N -> bool) i h :=
-        cls sb i = true /\ known_c01 (Some b) i = 1
+        cls sb i = true /\ known_c01_v3 (Some b) i = 1
         /\ match P (Some b) i, S (Some sb) i with
            | POk u, BDone su => q_href u = h /\ api_of_model true u = Some (spec_api_list spec_host_serializer su)
            | _, _ => False end in
@@ -772,7 +772,7 @@ Example class_file_drive_exclusion_necessary :
   let i := [102;105;108;101;58;67;58;47;121] in
   match P None file_base_text, S None file_base_text with
   | POk b, BDone sb =>
-      in_class_file_same_drive sb i = false /\ known_c01 (Some b) i = 1
+      in_class_file_same_drive sb i = false /\ known_c01_v3 (Some b) i = 1
       /\ match P (Some b) i, S (Some sb) i with
          | POk u, BDone su => q_href u = [102;105;108;101;58;47;47;47;67;58;47;121] /\ get_href spec_host_serializer su = [102;105;108;101;58;47;47;104;47;67;58;47;121]
          | _, _ => False end
@@ -1075,7 +1075,7 @@ Example class_file_one_carry_nonvacuous :
   match P None bt, S None bt with
   | POk b, BDone sb =>
       let ok (cls : spec_url -> list N -> bool) i h :=
-        cls sb i = true /\ known_c01 (Some b) i = 1
+        cls sb i = true /\ known_c01_v3 (Some b) i = 1
         /\ match P (Some b) i, S (Some sb) i with
            | POk u, BDone su => q_href u = h /\ api_of_model true u = Some (spec_api_list spec_host_serializer su)
            | _, _ => False end in
